@@ -214,7 +214,18 @@ def check_case(ctx, case):
         ctx.count("nonfinite_rows_skipped")
         return
     d = np.linalg.norm(a - b, axis=-1)
-    allowed = 1e-6 * np.linalg.norm(a, axis=-1) + fl
+    # CylinderSegment loses digits like 1/d^2 next to its coincidence sets, also on their extension far from the
+    # magnet (C01 finding cylseg-near-coincidence-precision: 1e-3 relative at 7e-6 sizes from the plane z = -h/2,
+    # met by a thorough run of this check): same amplification of the class floor as C03/C12 use near a surface
+    amp = np.ones(d.shape)
+    segs = [x for x in [whole] + [q for q in parts if isinstance(q, dict)] if x["cls"] == "CylinderSegment"]
+    if segs:
+        for m in range(d.shape[0]):
+            dm = np.min([G.cylseg_coincidence_dist(x, G.to_local(x, obs, m=m)) for x in segs], axis=0)
+            amp[m] = np.maximum(1.0, (1e-3 / np.maximum(dm, 1e-300)) ** 2).reshape(amp[m].shape)
+        if np.any(amp > 1):
+            ctx.count("rows_near_cylseg_coincidence_set", int(np.sum(amp > 1)))
+    allowed = 1e-6 * np.linalg.norm(a, axis=-1) + fl * amp
     if np.any(d > allowed):
         i = np.unravel_index(np.argmax(d / allowed), d.shape)
         ctx.violation({"kind": "whole!=parts", "identity": ident, "field": F}, case,
